@@ -28,7 +28,7 @@ NA = {
 CHECKS = {
     "C02": dict(
         cat="exploration", design="4.2", technique="deterministic simulation: seeded replica-agreement (batch replica vs row-by-row replica) over random segmentations, with exception-parity oracle",
-        text="Seeded search over generated engines x row streams x segmentations x setter kinds; two real engines fed the same log under different segmentation must agree row for row (values, fuzzy values) and on raising. Sampling, not proof: a clean run is evidence that no segmentation-, carry- or mode-dependent divergence exists among the cases explored.",
+        text="Seeded search over generated and shipped engines x row streams x segmentations x setter kinds (per-variable arrays, matrix, 1-d, 0-d, in-place refills, integer / strided / read-only batches, batches beyond 8192 rows); two real engines fed the same log under different segmentation must agree row for row (values, fuzzy values, Engine.output_values) and on raising. Sampling, not proof: a clean run is evidence that no segmentation-, carry- or mode-dependent divergence exists among the cases explored.",
         note="Trusted: NumPy, the spec builder (public constructors only). Function terms reading output values are excluded; relative differences <= 1e-12 tolerated and counted (0 observed)."),
     "C12": dict(
         cat="fault_enumeration", design="4.1", technique="deterministic simulation: state-machine histories vs executable reference model, all cuts of sampled row sequences, defuzzifier failure of every kind enumerated at every position",
@@ -81,7 +81,7 @@ def main(claimed):
         "engines": [{"name": "simkit", "path": "/verif/simkit", "serves_properties": claimed,
                      "kind_free_text": "deterministic simulator: seeded trace generator, runners with reference models / fresh twins, fault injectors (faulty component subclasses, None operators, FP traps, sys.settrace line crashes, torn/corrupted documents), pristine-process shrinker, exact replay"}],
         "checks": checks,
-        "notes": "Technique family: deterministic simulation with fault injection (DESIGN.md). check.py exit codes: 0 held, 1 violation (+VIOLATION line), 2 harness error/timeout, 3 replay mismatch. Honours VERIF_SEED, VERIF_TIER, VERIF_REPO. Self-tests: selftest/determinism.py, selftest/sensitivity.py.",
+        "notes": "Technique family: deterministic simulation with fault injection (DESIGN.md; section 9 is the as-built record). check.py exit codes: 0 held, 1 violation (+VIOLATION line), 2 harness error/timeout, 3 replay mismatch. Honours VERIF_SEED, VERIF_TIER, VERIF_REPO. No source hooks in /repo; six unguarded 'fix:' commits repair the genuine defects the checks found (known_findings.json lists them as fixed). Self-tests: selftest/determinism.py, selftest/sensitivity.py (60+ mutants incl. silent controls), selftest/known_findings_test.py; tools/reseed.py re-runs the 100+ sub-agent changes kept under seeded/.",
         "not_applicable": na,
     }
     with open(os.path.join(HERE, "MANIFEST.json"), "w") as f:
